@@ -46,6 +46,34 @@ CLAIMED = {
    text='Theorems over a model of both tools\' main functions and both option scanners with the library conversion as a parameter: whole input read under any fread chunking, output bytes = library bytes, exit status = library code mod 256, failed: line iff failure, no output file on failure, never crashes for any argv / file-system facts. Tie: TOOL correspondence against the freshly built executables on generated scenarios, fed with the in-process library verdict.',
    ref='§5 C20', technique='Lean 4 proof + scenario-based differential run of the real executables',
    note=TB + ' OS behaviour and glibc getopt are parameters (specified, tied by correspondence). Three defects fixed.'),
+ 'C02': dict(
+   text='Theorems over the executable model of the whole XML->WBXML conversion (tree builder driven by Expat\'s events — Expat is a parameter recorded from the real library — and the WBXML encoder with string table, value tokenisation and typed content): totality, absence of the explicit UB flags, output contract, ill-formed or unrecognised input is always an error (Props/C02.lean, growing; unfinished parts carry _partial names). Tie: X2W correspondence (byte-exact WBXML, every option tuple) under ASan/UBSan/LSan with the input read-only. Partial: heap, leaks, stack are runtime facts observed, not proved.',
+   ref='§5 C02', technique='Lean 4 proof over a byte-exact model (Expat as parameter) + differential run under sanitizers + 8 MiB stack ladder',
+   note=TB + ' Expat (well-formedness, entity expansion, event order) is assumed, and recorded for every input. Known finding: nesting deeper than ~60k levels exhausts the 8 MiB stack.'),
+ 'C03': dict(
+   text='Round-trip theorems composed from the encoder theorems (C06) and parse_ser (C04) over the conversion models (Props/C03.lean, growing, _partial where the composition is not complete). Tie: correspondence of both conversions on every step; implementation-side oracle: Expat re-reads the round-tripped XML and tools/docmp.py compares nesting, names (alias classes), attributes, character data under exactly the documented normalisations; second round trip byte-identical.',
+   ref='§5 C03', technique='Lean 4 proof (composition) + differential round trips with an independent document comparison',
+   note=TB + ' Several genuine data-changing corner cases are recorded as known findings (see known_findings.json: attributes dropped for languages without attribute table, CDATA in typed elements, invalid typed text accepted, …); six defects found by this check were fixed.'),
+ 'C05': dict(
+   text='Theorems over the XML printer model: escaped text never contains markup characters, unescape(escape s) = s in every mode, CR never literal, canonical mode escapes CR/LF/TAB, CDATA text cannot terminate its section, header carries the DOCTYPE (Props/C05.lean, growing). Tie: W2X correspondence (byte-exact) + oracle: Expat (plain, non-namespace) accepts the output, DOCTYPE matches the language, events read back equal the event parser\'s (exactly in canonical mode).',
+   ref='§5 C05', technique='Lean 4 proof over the printer model + independent XML parser as oracle',
+   note=TB + ' Well-formedness against the XML Recommendation is carried by Expat as independent reader. Three defects fixed (nested CDATA, ]]> in CDATA, literal-root namespace).'),
+ 'C06': dict(
+   text='Theorems over the WBXML encoder model: header fields, exact string-table length and offsets, references at entry starts, page switches exactly when the page changes, output is Spec.ser of a well-formed Spec.Doc so that parse_ser applies (Props/C06.lean, growing, _partial where unfinished). Tie: X2W correspondence over all option tuples; oracle on the implementation\'s bytes: structural walker (header, table, references), strict decode by the Lean specification reader (SPEC), decoded events = source document.',
+   ref='§5 C06', technique='Lean 4 proof over the encoder model + strict specification decoder as oracle',
+   note=TB + ' Three defects fixed (string-table aliasing, WBXML 1.0 charset field, anonymous public id).'),
+ 'C07': dict(
+   text='Option-independence theorems over the conversion models (charset irrelevant, version/anonymity change only the header, generation modes change only white space between markup; Props/C07.lean, growing). Tie: correspondence + oracle: all 32 encoder tuples decode to one document (within each keep-ws class), compact/indent/canonical XML read back as the same tree, UTF-16 / ISO-8859-1 transcodings give byte-identical WBXML.',
+   ref='§5 C07', technique='Lean 4 proof + cross-product differential run',
+   note=TB + ' Transcoding equality additionally rests on Expat (parameter).'),
+ 'C10': dict(
+   text='Theorems over check_public_id / wbxml_tables_search_table models: forcing wins for every document, no identifier and no forcing is rejected, each route selects the first registered entry (general lemmas + decide over the regenerated 29-entry table; Props/C10.lean). Tie: exhaustive IDENT correspondence: 29 languages x routes x {no forcing, each forced language} (6630 WBXML + 179 XML cases), expectation computed independently from the dumped tables.',
+   ref='§5 C10', technique='Lean 4 proof + exhaustive identification matrix',
+   note=TB + ' Known finding: DRMREL cannot be recognised from its prefixed root element.'),
+ 'C17': dict(
+   text='Theorems by induction over ALL operation histories of the flow-mode state machine, for an arbitrary per-node encoder: flow output = header ++ batch encoding of the surviving nodes, code pages track the output, delete restores output and code-page state (Props/C17.lean, nothing partial). Tie: FLOW correspondence (whole histories, output after every step) + oracle against fresh batch encodings.',
+   ref='§5 C17', technique='Lean 4 proof (induction over histories, encoder as parameter) + differential histories',
+   note=TB + ' The per-node WBXML encoding is a parameter measured on the real encoder (the separate encoder model is tied by C02/C06). Two defects fixed.'),
  'C14': dict(
    text='Theorem schedule_independence for an abstract machine with read-only shared state and per-thread local state (any number of threads, any programs, any two complete interleavings: every thread sees exactly its sequential outputs), instantiated for the library through structural premises proved by kernel evaluation over the symbol table regenerated from the current build: no writable global/static object or section, no external symbol that POSIX allows to be non-reentrant or that mutates process state. Partial: a C-level data race is not expressible in the model; ThreadSanitizer runs of 2-16 threads compared with sequential runs are validation and counter-example search, not proof.',
    ref='§5 C14', technique='Lean 4 proof (induction over schedules) + decide over regenerated symbol dump; TSan differential run as validation',
